@@ -8,7 +8,7 @@
    the empirical collision integrals (positive-definiteness of the Galerkin matrices is not proved). *)
 From Coq Require Import Reals List.
 Import ListNotations.
-From MPC Require Import Num Species RInst StatMech RVec Radiation GenSpecies GenRadiation GenTransport Transport C12_split C14_proofs C14_quadratic.
+From MPC Require Import Num Species RInst StatMech RVec Radiation GenSpecies GenRadiation GenTransport Transport C12_split C05_blocks C12_split_q C14_proofs C14_quadratic C14_quadratic_k.
 Open Scope R_scope.
 
 Theorem C14_emission_positive : forall (U : Units R) (T : R) (heavy : list (R * species R)),
@@ -101,3 +101,15 @@ Proof.
   - apply (viscosity_positive_iff_form_positive U T masses nd nb Q Hm HkT x Hsys).
 Qed.
 Print Assumptions C14_viscosity_is_quadratic_form.
+
+(* the same for the translational thermal conductivity and the 4 nu x 4 nu matrix *)
+Theorem C14_translational_conductivity_is_quadratic_form : forall (U : Units R) (T : R) (masses nd : nat -> R) (nb : nat) (Q : @qints R),
+  (forall i, 0 < masses i) -> 0 < k_b U * T -> 0 < k_b U -> forall x : nat -> nat -> R,
+  q_rows nb masses nd Q (kdash_rhs nd) x ->
+  kdash_value RNum U T masses nd nb (x 1%nat) = k_b U * sqrt (2 * (k_b U * T)) / (6 * sqrt PI) * qform_k masses nd nb Q x /\
+  (0 < kdash_value RNum U T masses nd nb (x 1%nat) <-> 0 < qform_k masses nd nb Q x).
+Proof.
+  intros U T masses nd nb Q Hm HkT Hk x Hsys. split.
+  - apply kdash_is_quadratic_form; assumption.
+  - apply (kdash_positive_iff_form_positive U T masses nd nb Q Hm HkT Hk x Hsys).
+Qed.
